@@ -14,7 +14,7 @@ RULE = (
     "files with d declared curves (distinct unit/value/descr each), c data columns and r rows whose cell (i, j) is "
     "100(i+1)+(j+1) (optionally negated outside the index); unwrapped for every (d, c, r); WRAP YES for c == d with "
     "every composition of the c tokens of a depth step into physical lines; rows around the 20-line sniffing window "
-    "with an optional blank/comment at the window edge; both engines; a case is non-trivial when d != c, or the file "
+    "with an optional blank/comment at the window edge; a family whose mnemonics are integers equal to another curve's position; both engines; a case is non-trivial when d != c, or the file "
     "is wrapped, or r >= 19"
 )
 ASSUMPTIONS = [
@@ -59,6 +59,15 @@ def points(tier):
                         for noise in (None, ["blank", 20], ["comment", 20], ["blank", 19], ["blank", r], ["comment", r]):
                             pts.append({"kind": "unwrapped", "d": d, "c": c, "r": r, "engine": eng, "sign": sign,
                                         "noise": noise})
+            # mnemonics that are themselves integers equal to another curve's position (a lookup by
+            # position must never be answered by name)
+            for d in (2, 3, 4, 5):
+                for c in sorted({d - 1, d, d + 1}):
+                    for r in (1, 3):
+                        pts.append({"kind": "unwrapped", "d": d, "c": c, "r": r, "engine": eng, "sign": sign, "noise": None,
+                                    "names": "numeric"})
+                pts.append({"kind": "wrapped", "d": d, "c": d, "r": 2, "engine": eng, "sign": sign, "noise": None,
+                            "names": "numeric", "comp": list(space_default_cut(d))})
             # wrapped with many rows (window inside the data), uniform and non-uniform cuts
             for c in (2, 3, 4):
                 for comp in space.compositions(c):
@@ -66,6 +75,10 @@ def points(tier):
                         pts.append({"kind": "wrapped", "d": c, "c": c, "r": r, "engine": eng, "sign": sign,
                                     "comp": list(comp), "noise": None})
     return pts
+
+
+def space_default_cut(c):
+    return (c,) if c == 1 else (1, c - 1)
 
 
 def cell(i, j, sign):
@@ -78,6 +91,9 @@ def cell(i, j, sign):
 def build_text(pt):
     d, c, r = pt["d"], pt["c"], pt["r"]
     curves = lasgen.std_curves(d)
+    if pt.get("names") == "numeric":
+        # curve j (j >= 1) is named after the position of the next curve, the last one after position 1; curve 0 after position d-1
+        curves = [((str((j % max(d - 1, 1)) + 1) if j else str(max(d - 1, 0))), u, v, de) for j, (_, u, v, de) in enumerate(curves)]
     wrap = "YES" if pt["kind"] == "wrapped" else "NO"
     secs = [lasgen.version_section("2.0", wrap), lasgen.well_section("-999.25")]
     secs.append(lasgen.curve_section(curves))
@@ -151,6 +167,16 @@ def check_point(pt):
             if not (col.dtype.kind == "f" and np.all(np.isnan(col))):
                 vio.append(V("missing-column-not-nan", {"curve": j, "values": "all NaN"}, col.tolist()))
                 break
+    if not vio and lens and len(set(lens)) == 1:
+        try:
+            data = las.data
+            for j in range(min(c, len(cur))):
+                exp = [float(cell(i, j, pt["sign"])) for i in range(r)]
+                if [float(x) for x in data[:, j].tolist()] != exp:
+                    vio.append(V("data-view-column", {"column": j, "values": exp}, data[:, j].tolist()))
+                    break
+        except Exception as e:
+            vio.append(V("data-view-raises", "las.data is the column stack of the curves", repr(e)))
     return vio, nontriv, "ok", {}, 1
 
 
@@ -169,6 +195,8 @@ def classify(pt, clause):
         feats.append("noise:" + pt["noise"][0])
     if pt["sign"] == "neg":
         feats.append("neg")
+    if pt.get("names") == "numeric":
+        feats.append("numeric-names")
     return "+".join(feats)
 
 
